@@ -1,0 +1,43 @@
+//go:build verif
+
+package dxil
+
+import (
+	"github.com/gogpu/naga/dxil/internal/bitcode"
+	"github.com/gogpu/naga/dxil/internal/container"
+	"github.com/gogpu/naga/ir"
+)
+
+// VerifPrepare runs the DXIL pre-emission IR pipeline (prepareModule followed
+// by runOptPasses) and returns the transformed module. stage 0 = prepare only,
+// stage 1 = prepare + optimisation passes.
+func VerifPrepare(m *ir.Module, stage int) (*ir.Module, error) {
+	out, err := prepareModule(m)
+	if err != nil {
+		return nil, err
+	}
+	if stage >= 1 {
+		if err := runOptPasses(out); err != nil {
+			return nil, err
+		}
+	}
+	return out, nil
+}
+
+// VerifBitcodeWriter exposes the bit-level writer.
+type VerifBitcodeWriter = bitcode.Writer
+
+func VerifNewBitcodeWriter(abbrevWidth uint) *VerifBitcodeWriter {
+	return bitcode.NewWriter(abbrevWidth)
+}
+func VerifEncodeSignedVBR(v int64) uint64 { return bitcode.EncodeSignedVBR(v) }
+func VerifEncodeChar6(ch byte) uint32     { return bitcode.EncodeChar6(ch) }
+func VerifIsChar6String(s string) bool    { return bitcode.IsChar6String(s) }
+
+// VerifContainer exposes the DXBC container builder.
+type VerifContainer = container.Container
+
+func VerifNewContainer() *VerifContainer         { return container.New() }
+func VerifComputeRetailHash(data []byte)         { container.ComputeRetailHash(data) }
+func VerifSetBypassHash(data []byte)             { container.SetBypassHash(data) }
+func VerifWriteShaderHashPart(data []byte) error { return container.WriteShaderHashPart(data) }
